@@ -261,11 +261,56 @@ class Gen:
             n = rng.choice([0, k + 1])
         self.emit({"op": "select", "workers": lst, "n": n, "kind": self.count_kind()})
 
+    def shared_pair(self):
+        """two tasks that share a plainly required worker (busy for part of the task only, half of the time) and also
+        meet on another resource through a selection or a cumulative worker"""
+        rng = self.rng
+        ts = self.tasks()
+        ws = self.plain_workers()
+        if len(ts) < 2 or not ws:
+            return False
+        t1, t2 = rng.sample(ts, 2)
+        w = rng.choice(ws)
+        for t in (t1, t2):
+            if w not in {x.name for x in self.real.tasks[t]._required_resources}:
+                d = {"op": "require", "task": t, "res": ("worker", w)}
+                kind = next((x["kind"] for x in self.script if x["op"] == "task" and x["name"] == t), ("zero",))
+                room = kind[1] if kind[0] in ("fixed", "var") else 0
+                if room and rng.random() < 0.5:
+                    if rng.random() < 0.5:
+                        d["delay_in"], d["early_out"] = room, 0
+                    else:
+                        d["delay_in"], d["early_out"] = 0, room
+                elif rng.random() < 0.3:
+                    d["dynamic"] = True
+                self.emit(d)
+        other = []
+        for i, sel in enumerate(self.real.selects()):
+            names = {x.name for x in sel.list_of_workers}
+            if w not in names and not any("_CumulativeWorker_" in n or n in self.real.cumuls for n in names):
+                other.append(("select", i))
+        other += [("cumul", c) for c in self.real.cumuls]
+        if not other:
+            self.g_cumulative() if rng.random() < 0.5 else self.g_select()
+            return True
+        res = rng.choice(other)
+        for t in (t1, t2):
+            already = {x.name for x in self.real.tasks[t]._required_resources}
+            if res[0] == "cumul":
+                clash = {x.name for x in self.real.cumuls[res[1]]._cumulative_workers} & already
+            else:
+                clash = {x.name for x in self.real.selects()[res[1]].list_of_workers} & already
+            if not clash:
+                self.emit({"op": "require", "task": t, "res": res})
+        return True
+
     def g_require(self):
         rng = self.rng
         ts = self.tasks()
         if not ts:
             return self.g_task()
+        if rng.random() < 0.12 and not self.frag and self.shared_pair():
+            return
         t = rng.choice(ts)
         already = {w.name for w in self.real.tasks[t]._required_resources}
         choices = []
@@ -346,7 +391,19 @@ class Gen:
             d["optional"] = True
         if name:
             d["name"] = name
-        return self.emit(d)
+        before = self.nconstraints()
+        r = self.emit(d)
+        if c[0] == "precedence" and t2 in mates and not d.get("optional") and self.nconstraints() == before + 1 \
+                and not self.frag and rng.random() < 0.4:
+            # a precedence between two tasks that compete for a worker, used only as operand of a connective: it is not
+            # enforced, so nothing but the worker keeps the two tasks apart
+            me = ("ref", before)
+            self.operands_used.add(before)
+            k2 = rng.choice(["or", "not", "implies", "xor"])
+            c2 = {"or": lambda: ("or", [me, ("raw", self.raw_fml())]), "not": lambda: ("not", me),
+                  "implies": lambda: ("implies", self.cond(), [me]), "xor": lambda: ("xor", me, ("raw", self.raw_fml()))}[k2]()
+            self.emit({"op": "constraint", "c": c2})
+        return r
 
     def g_fragc(self, optional=None):
         rng = self.rng
